@@ -236,7 +236,7 @@ size_t gp_bytes_append(
     const void* src,
     const size_t src_length)
 {
-    memcpy((uint8_t*)dest + dest_length, src, src_length + sizeof(""));
+    memcpy((uint8_t*)dest + dest_length, src, src_length);
     return dest_length + src_length;
 }
 
